@@ -215,10 +215,15 @@ fn handle_diagnostics(
         match project {
             Some(set) => {
                 for file_id in unique_files {
-                    if let Some(content) = set.get(file_id) {
-                        let id = files.add(file_id.to_string(), content.as_string());
-                        files_to_ids.insert(file_id, id);
-                    }
+                    // A diagnostic can name a file that is not part of the project
+                    // (for example, a file that could not be read). The diagnostic
+                    // is still rendered, without a source snippet.
+                    let content = match set.get(file_id) {
+                        Some(content) => content.as_string(),
+                        None => empty_source.as_str(),
+                    };
+                    let id = files.add(file_id.to_string(), content);
+                    files_to_ids.insert(file_id, id);
                 }
             }
             None => {
